@@ -242,10 +242,12 @@ fn worker_sched(job: &Value, refs: &Value) -> Value {
         if !log.windows(2).all(|w| w[0].1 < w[1].1) && a.log_errors.len() < 3 {
             a.log_errors.push(format!("allocation log not increasing: {log:?}"));
         }
+        let mut outcomes = outcomes;
         for (t, n) in allocs2.iter().enumerate() {
             let c = pattern.iter().filter(|x| **x as usize == t).count() as u64;
-            if c != *n && a.log_errors.len() < 3 {
-                a.log_errors.push(format!("thread {t} made {c} allocations, sequential {n}"));
+            if c != *n && outcomes[t].is_none() {
+                // a different number of objects under this interleaving is a dependence as well
+                outcomes[t] = Some(format!("made {c} ObjectId allocations, {n} when compiled alone"));
             }
         }
         let pd = digest_of(&pattern);
@@ -292,9 +294,11 @@ fn run_with_gaps(item: usize, gaps: &[u64], n: u64) -> Result<Result<Vec<u8>, St
     MODE.store(MODE_OFF, Ordering::Relaxed);
     let calls = CALLS.load(Ordering::Relaxed);
     if r.is_ok() && calls != n {
-        return Err(format!(
-            "item {item}: {calls} allocations under gap injection, {n} in the reference run"
-        ));
+        // the number of objects allocated changed with the gaps: that is already a dependence of
+        // the compilation on the counter (e.g. different promotion/splitting decisions)
+        return Ok(Err(format!(
+            "{calls} ObjectId allocations under gap injection, {n} in the reference run"
+        )));
     }
     Ok(r)
 }
@@ -636,16 +640,21 @@ fn body(run: &Run, replay: Option<&Value>) {
     for (x, &a) in tiny.iter().enumerate() {
         for (y, &b) in tiny.iter().enumerate().skip(x) {
             for &c in &tiny[y..] {
+                // quick: the three threads together make ≤ 8 allocations (3+3+3 alone costs 5.7e5
+                // schedules, ~20 s on one core)
+                if run.tier == Tier::Quick && allocs[a] + allocs[b] + allocs[c] > 8 {
+                    continue;
+                }
                 jobs.push(Job { spec: json!({"k":"sched","items":[a,b,c]}), seed: 0 });
                 sched_bounds.push(json!([items[a].name, items[b].name, items[c].name]));
             }
         }
     }
     run.bound("schedule_groups", json!(sched_bounds));
-    run.bound("schedule_threads", json!({"pairs_max_allocations_per_thread": max2, "triples_max_allocations_per_thread": max3}));
+    run.bound("schedule_threads", json!({"pairs_max_allocations_per_thread": max2, "triples_max_allocations_per_thread": max3, "triples_max_allocations_total": run.tier.pick(json!(8), json!(null))}));
     // (2) gaps
     let gap_workers = 8usize;
-    let bound2_max_n: u64 = run.tier.pick(120, 700);
+    let bound2_max_n: u64 = run.tier.pick(120, 200);
     let mut gap_bounds = vec![];
     for i in 0..n_items {
         let bound = if allocs[i] <= bound2_max_n { 2 } else { 1 };
@@ -701,7 +710,9 @@ fn body(run: &Run, replay: Option<&Value>) {
                 run.trans(schedules * its.iter().map(|i| allocs[*i]).sum::<u64>());
                 run.count(&format!("schedules_{}threads", its.len()), schedules);
                 run.count(&format!("id_interleaving_patterns_{}threads", its.len()), patterns);
-                min_patterns = min_patterns.min(patterns);
+                if schedules > 0 {
+                    min_patterns = min_patterns.min(patterns);
+                }
                 if sched_report.len() < 40 {
                     sched_report.push(json!({"values": names, "schedules": schedules, "patterns": patterns}));
                 }
@@ -722,7 +733,7 @@ fn body(run: &Run, replay: Option<&Value>) {
                     let others: Vec<&str> = names.clone();
                     run.violation(
                         &format!("compile({}) bytes depend on the ObjectId interleaving with concurrent compilations", items[it].name),
-                        &format!("threads compiling {:?}: thread {} ({}) {} under id pattern {} ({} of {} schedules failed)", others, m["thread"], items[it].name, m["what"].as_str().unwrap_or(""), m["pattern"], v["mismatch_count"], schedules),
+                        &format!("threads compiling {:?}: thread {} ({}) {} under id pattern {} ({} failing thread-runs in {} schedules)", others, m["thread"], items[it].name, m["what"].as_str().unwrap_or(""), m["pattern"], v["mismatch_count"], schedules),
                         json!({"job": spec, "seed": job.seed, "detail": m}),
                     );
                 }
@@ -744,8 +755,15 @@ fn body(run: &Run, replay: Option<&Value>) {
                     run.sample(json!({"kind":"gap injection","value":items[it].name,"allocation_points":allocs[it],"worker":spec["w"],"assignments_run":execs}));
                 }
                 for m in v["mismatches"].as_array().cloned().unwrap_or_default() {
+                    // the all-zero assignment is a plain second compilation in the worker process
+                    let no_gap = m["gaps"].as_array().map(|a| a.is_empty()).unwrap_or(false);
+                    let id = if no_gap {
+                        format!("compile({}) bytes differ when repeated in the same process", items[it].name)
+                    } else {
+                        format!("compile({}) bytes depend on foreign gaps in the ObjectId counter", items[it].name)
+                    };
                     run.violation(
-                        &format!("compile({}) bytes depend on foreign gaps in the ObjectId counter", items[it].name),
+                        &id,
                         &format!("{}: {} with gaps (allocation index, gap) {} ({} failing assignments in this slice)", items[it].name, m["what"].as_str().unwrap_or(""), m["gaps"], v["mismatch_count"]),
                         json!({"job": {"k":"gap","item":it,"w":0,"W":1,"bound":0,"tape":m["tape"]}, "seed": job.seed, "detail": m}),
                     );
@@ -828,7 +846,12 @@ fn replay_case(run: &Run, sup: &Sup, items: &[menu::Item], case: &Value) {
             return;
         }
     };
-    println!("replay result: {}", v);
+    let mut shown = v.clone();
+    if let Some(o) = shown.as_object_mut() {
+        o.remove("pattern_digests");
+        o.remove("digests");
+    }
+    println!("replay result: {}", shown);
     let refs: Value = serde_json::from_str(&sup.refs_env.lock().unwrap()).unwrap();
     let failed = match job["k"].as_str().unwrap_or("") {
         "seed" => {
